@@ -99,7 +99,7 @@ def run_C01(ctx):
     ctx.l2_phase("slice-python-layer", "Session", consts, ("l2replay", "h_generic"), invariants=["Closed"], seed_tlc=True,
                  require_actions=["SliceOp"], sample_cases=(12000 if ctx.quick() else 200000), timeout=900)
     ctx.chain_phase("chains-code-to-spec", (4000 if ctx.quick() else 60000), 5, ops={"slice"})
-    ctx.pychain_phase("python-chains-code-to-spec", (4000 if ctx.quick() else 60000), 5, ops={"filter"})
+    ctx.pychain_phase("python-chains-code-to-spec", (4000 if ctx.quick() else 60000), 5, ops={"filter", "slice", "sortbyarg"})
     return ctx.finish(assumptions=["slice tuples are a seeded random subset (per layout) of the tier's tuple alphabet"])
 
 
@@ -208,11 +208,14 @@ MIXED_LEAVES = ('{Numpy("int64", [k \\in 1..n |-> k]) : n \\in 0..2} \\cup '
 
 def run_C08(ctx):
     ctx.build("opt")
-    consts = session_consts(OpSet='{"concat","samevalue","aux"}', LeafSet=MIXED_LEAVES, MaxDepth="1" if ctx.quick() else "2",
-                            MaxLen="2", Classes=ALL_CLASSES)
+    consts = session_consts(OpSet='{"concat","samevalue","aux"}', LeafSet=MIXED_LEAVES, MaxDepth="1", MaxLen="2", Classes=ALL_CLASSES)
     ctx.tlc_phase("concat-pairs", "Session", consts, invariants=["Refines", "Closed"],
-                  require_actions=["ConcatOp", "SameValueOp", "StoreAux"],
-                  max_cases=None if ctx.quick() else 3000000)
+                  require_actions=["ConcatOp", "SameValueOp", "StoreAux"])
+    if not ctx.quick():
+        # pairs of depth-2 layouts are too many to enumerate (the exhaustive run did not finish in 25 min): random behaviours
+        consts = dict(consts, MaxDepth="2")
+        ctx.tlc_phase("concat-pairs-deep-simulate", "Session", consts, invariants=["Refines", "Closed"],
+                      simulate="num=400000", depth=12, view=None)
     ctx.chain_phase("chains-code-to-spec", (4000 if ctx.quick() else 60000), 5, ops={"concatself", "same"})
     ctx.pychain_phase("python-chains-code-to-spec", (4000 if ctx.quick() else 60000), 5, ops={"concat0", "concat1", "concat2", "concatperm", "same", "maysame"})
     return ctx.finish(assumptions=["ak.concatenate(axis=0) is replayed as its C++ call sequence mergeable/mergemany/merge_as_union/simplify_uniontype",
@@ -248,8 +251,8 @@ def run_C06(ctx):
     ctx.l2_phase("sort-python-layer", "Session", consts, ("l2replay", "h_generic"), invariants=["Closed"], seed_tlc=True,
                  require_actions=["SortOp"], sample_cases=(12000 if ctx.quick() else 200000), timeout=900,
                  reuse=(r1 if ctx.quick() else None))
-    ctx.chain_phase("chains-code-to-spec", (4000 if ctx.quick() else 60000), 5, ops={"sort", "argsort"})
-    ctx.pychain_phase("python-chains-code-to-spec", (4000 if ctx.quick() else 60000), 5, ops={"sort", "argsort"})
+    ctx.chain_phase("chains-code-to-spec", (4000 if ctx.quick() else 60000), 5, ops={"sort", "argsort", "sortbyarg"})
+    ctx.pychain_phase("python-chains-code-to-spec", (4000 if ctx.quick() else 60000), 5, ops={"sort", "argsort", "sortbyarg"})
     return ctx.finish(assumptions=["float leaves hold small integers and NaN only; strings are not modelled yet",
                                    "non-innermost sort with missing lists inside a group is Unspec in the model"])
 
